@@ -111,8 +111,10 @@ def main():
                 if a2.startswith("ok") and kv(a2)[1].get("verify") == "ok":
                     kinds = sorted(set(decls[i][nm][0] for i in range(len(u)) for nm in shared if nm in decls[i]))
                     counts = set(len(decls[i][nm][1]) for i in range(len(u)) for nm in shared if nm in decls[i])
-                    key = "c03:invalid-linked-ir:same-named-%s-in-two-modules:%s" % (
-                        "+".join(kinds), "member-count-differs" if len(counts) > 1 else "member-types-differ")
+                    # what LLVM's assembler objects to (the in-process verifier does not check constant struct initialisers
+                    # against the member types, which is how these get through)
+                    msg = re.sub(r"[0-9]+", "N", hd.get("verify", "")).split("error:_")[-1].rstrip("]")
+                    key = "c03:invalid-linked-ir:same-named-structure-in-two-modules:%s" % msg
         if problems:
             rep.violation(key, {"why": problems[:5], "files": dict(u), "harness_request": rq, "implementation": a[:800],
                                              "note": "implementation-vs-oracle failure (LLVM's assembler/verifier or the symbol table), not a model disagreement"})
